@@ -387,6 +387,8 @@ class Mir:
                 elif g.path.startswith(old + "::"):
                     g.path = new + g.path[len(old):]
                     self.ren[g.key] = g.path
+                    if g.kind == "Closure":
+                        _CLOSURE_REN[g.key] = g.path
         if self.ren:
             self.by_path = defaultdict(list)
             for g in self.fns.values():
@@ -872,6 +874,7 @@ UNCHECKED_AS_CHECKED = False
 
 
 ENTRY_AS_GET_INSERT = True
+_CLOSURE_REN = {}
 
 
 def entry_of(x):
@@ -912,7 +915,8 @@ def canon(e, depth=0):
                     return "(%s::get(%s, %s) as Some).0" % (mk[2], canon(mk[0], d), canon(mk[1], d))
         return "%s(%s)" % (sp_, ", ".join(canon(x, d) for x in e.a[1]))
     if k == "agg":
-        return "%s{%s}" % (short_path(e.a[1]), ", ".join(canon(x, d) for x in e.a[2]))
+        # (a closure of a role function carries the function's canonical name, like the function itself)
+        return "%s{%s}" % (short_path(_CLOSURE_REN.get(e.a[1], e.a[1]) if e.a[0] == "closure" else e.a[1]), ", ".join(canon(x, d) for x in e.a[2]))
     if k == "field":
         return "%s.%s" % (canon(e.a[0], d), e.a[1])
     if k == "downcast":
